@@ -54,6 +54,9 @@ def plan(tier, seed):
         depth = int(rng.integers(2, 5 if tier == "quick" else 6))
         d = lops.gen_tree(rng, depth, None, 20)
         P.add("bigtree", desc=d, depth=depth, dt="complex128")
+    rng = P.rng("nested-stack")
+    for i in range(150 if tier == "quick" else 2500):
+        P.add("nested-stack", desc=lops.gen_nested_stack(rng), depth=2, dt="complex128")
     # directed stacking cases: every axis in [-ndim, ndim) and None for each stack type
     rng = P.rng("stack")
     nst = 240 if tier == "quick" else 4000
@@ -389,7 +392,7 @@ def run_one(case):
                 pass
         held_first = None
         for k in range(2):
-            with structured((sum(case["rs"]) // 3) % 9 if sum(case["rs"]) % 2 else 0):
+            with structured((sum(case["rs"]) // 3) % 10 if sum(case["rs"]) % 2 else 0):
                 x = crandn(rng, ish, dt)
             if k == 1 and len(ish) >= 2:
                 x = np.asfortranarray(x)            # memory-layout variant
